@@ -29,7 +29,12 @@ _STR_METHODS = ("join", "startswith", "endswith", "find", "rfind", "count", "rep
 _TEXT_FULL = {"xdsl.utils.arg_spec": {"shims": ("re",), "methods": _STR_METHODS, "calls": ("dict",)}, "xdsl.utils.mlir_lexer": {"shims": ("re",), "methods": _STR_METHODS},
               "xdsl.utils.lexer": {"shims": ("re", "io"), "methods": _STR_METHODS}, "xdsl.utils.hints": {"shims": ()}}
 
+_PARSE_OPTS = {"shims": ("re", "io", "math", "struct"), "methods": _STR_METHODS, "calls": ("dict",)}
+_PARSE_FULL = {m: dict(_PARSE_OPTS) for m in ("xdsl.utils.mlir_lexer", "xdsl.utils.lexer", "xdsl.parser.core", "xdsl.parser.base_parser", "xdsl.parser.generic_parser", "xdsl.parser.attribute_parser",
+                                               "xdsl.parser.affine_parser", "xdsl.printer", "xdsl.utils.base_printer", "xdsl.dialects.builtin", "xdsl.utils.hints")}
+
 CHECKS = {
+    "C06": {"module": "vx.checks.c06", "instrument": {"full": _PARSE_FULL}, "maxtasksperchild": 20},
     "C18": {"module": "vx.checks.c18", "instrument": {"full": _TEXT_FULL}, "maxtasksperchild": 20},
     "C09": {"module": "vx.checks.c09", "instrument": {}, "maxtasksperchild": 60},
     "C10": {"module": "vx.checks.c10", "instrument": {"full": {"xdsl.ir.core": {"shims": ()}, "xdsl.irdl.operations": {"shims": ()}}}, "maxtasksperchild": 40},
